@@ -3791,6 +3791,11 @@ class FieldDataOps:
 
         filter_to_apply_ = val.validate_filter(filter_to_apply)
 
+        if len(filter_to_apply_) != len(source.data):
+            # numpy raises for every other length mismatch but accepts a zero-length boolean index on any array
+            raise IndexError("boolean filter did not match field: the filter has {} entries but the field "
+                             "has {}".format(len(filter_to_apply_), len(source.data)))
+
         dest_data = source.data[:][filter_to_apply_]
 
         if in_place:
